@@ -18,7 +18,9 @@ from ..vloop import VLoop
 
 MOD = __name__
 PREFIXES = [("p-out", "p"), ("a/b/out", "a/b"), ("mygateway1-out", "mygateway1-in"), ("x/y/z", "x/y/z/w"), ("/lead/out", "/lead/in"), ("t/", "u/"),
-            ("home/(attic)/[gw]{1}|a.*?^$-out", "home/(attic)/[gw]{1}|a.*?^$-in")]
+            ("home/(attic)/[gw]{1}|a.*?^$-out", "home/(attic)/[gw]{1}|a.*?^$-in"),
+            # one topic tree for both directions: what the controller publishes comes back on its own subscription
+            ("shared", "shared"), ("s/t", "s/t")]
 PAYLOADS = ["", "x", "a;b", ";", "a;b;c", "a/b", "é", "1", "a b", "#", "+"]
 _LOOP: VLoop | None = None
 
@@ -381,6 +383,40 @@ def lifecycle_faults() -> list:
                 k, v = runc(loop, t.disconnect())
                 if k != "ok":
                     bad("reconnect-disconnect", f"disconnect #{round_} gave {k} {v!r}")
+            # messages, a decode error and more messages arrive and are not read; the application disconnects, a
+            # connection attempt fails at subscribe time, the retry succeeds: everything that had arrived is
+            # still delivered, once, in arrival order, followed by what arrives on the new connection
+            for fail_at in (None, "subscribe", "connect"):
+                FakeClient.plan = {}
+                FakeClient.instances.clear()
+                t = MQTTClient("b", 1883, in_prefix="k-out", out_prefix="k-in")
+                runc(loop, t.connect())
+                fake = FakeClient.instances[-1]
+                fake.deliver("k-out/1/3/1/0/2", b"one")
+                fake.deliver("k-out/1/3/1/0/2", b"\xff\xfe")
+                fake.deliver("k-out/2/4/1/0/0", b"two;2")
+                loop.run_ready()
+                runc(loop, t.disconnect())
+                if fail_at is not None:
+                    FakeClient.plan = {fail_at: MqttError("boom")}
+                    k, v = runc(loop, t.connect())
+                    if not (k == "raise" and isinstance(v, TransportError)):
+                        bad(f"{fail_at}-failure", f"{fail_at} failing on a reconnect gave {k} {v!r}")
+                    FakeClient.plan = {}
+                k, v = runc(loop, t.connect())
+                if k != "ok":
+                    bad("reconnect", f"connect after a failed attempt ({fail_at}) gave {k} {v!r}")
+                    continue
+                FakeClient.instances[-1].deliver("k-out/1/3/1/0/2", b"three")
+                loop.run_ready()
+                got = []
+                for _ in range(4):
+                    k, v = runc(loop, t.read())
+                    got.append(v.rstrip("\n") if k == "ok" else ("error" if k == "raise" and isinstance(v, TransportError) else f"{k}:{v!r}"))
+                want = ["1;3;1;0;2;one", "error", "2;4;1;0;0;two;2", "1;3;1;0;2;three"]
+                if got != want:
+                    bad("backlog-across-reconnect", f"three arrivals were left unread, then disconnect{'' if fail_at is None else ', a connection attempt failing at ' + fail_at}, connect, one more arrival: reads gave {got}, expected {want}")
+                runc(loop, t.disconnect())
             # a read that is already waiting when the transport is disconnected and connected again gets the next message
             FakeClient.plan = {}
             FakeClient.instances.clear()
